@@ -126,13 +126,13 @@ def makePlain (l : Srcloc) (v : Bytes) : LRich :=
   else if isDec v then (if decVal v = 0 then .nil l else .int l (decVal v))
   else .atom l v
 
-/-- `make_atom`.  NOTE the prim-table hit returns the table's value with the TABLE's
-    location (`*prims*(1):1`), not `l`. -/
+/-- `make_atom`.  A prim-table hit returns the table's value relocated to the token
+    (`p.1.with_loc(l)`). -/
 def makeAtom (l : Srcloc) (v : Bytes) : LRich :=
   match v with
   | 35 :: c :: r =>
     match primLookup (c :: r) with
-    | some n => .int primLoc n
+    | some n => .int l n
     | none => .atom l (c :: r)
   | _ => makePlain l v
 
